@@ -300,7 +300,7 @@ def classify(inp):
     return "%s:%s" % (inp.get("schema"), inp.get("route"))
 
 
-BUDGET = dict(quick=240, thorough=1000)
+BUDGET = dict(quick=240, thorough=900)
 ROUTES = ["tree_get", "list_read", "yield", "dataset", "tree_array", "sources"]
 
 
